@@ -36,6 +36,8 @@ ASSUMPTIONS = [
     "it is accepted only when something really failed (injected fault, inputs constructed to fail, external command): a "
     "valid nonfatal request without any failing operation that ends the build violates 'for nonfatal requests the "
     "failure code and message are returned'",
+    "expected contents/mtimes of installed files are those of the source files at request time (the work tree is read "
+    "again before every request once eapply/unpack/filter_env ... ran in the scenario)",
     "exit status of the external install command is taken from the real spawn_get_output call (observed, not modelled)",
     "the bash side of the frame (read -a splitting on BEL, backslash processing) and real-daemon runs are left to the daemon "
     "harness owner",
@@ -178,7 +180,7 @@ def judge_install(ctx, sc, rec, req, status, text, wire, W, internal=False):
     completed = None
     absent = []
     if placement["verdict"] in ("ok", "either"):
-        bad = ref.compare(placement, rec.pre, rec.post, sc.src_snap)
+        bad = ref.compare(placement, rec.pre, rec.post, rec.src_snap)
         # requested entries that are simply not there afterwards (placement details such as modes are C33's business)
         absent = [b for b in bad if b["problem"] in ("missing", "type", "link-target", "content",
                                                      "relative-link-does-not-resolve", "not-a-hardlink-of")]
@@ -275,6 +277,8 @@ def run_records(ctx, sc, source, direct=False):
     recs = list(sc.all_records)
     for idx, rec in enumerate(recs):
         judge(ctx, sc, source.issued, idx, rec)
+    if sc.src_resnaps:
+        ctx.count("source_tree_reread_before_request", sc.src_resnaps)
     if sc.revived:
         ctx.count("helpers_replaced_after_dead_coroutine", sc.revived)
     for n in sc.harness_notes:
